@@ -135,4 +135,17 @@ theorem certified_fba_optimum (n : Net) (hp : n.Proper) (xs ys : List Rat) (h : 
 
 example : AuxM.demoNet.fba.certOpt [2, 0, 2, 0] [-1] = true := by decide +kernel
 
+open AuxM in
+/-- **mixed-integer problems (ROOM, minimal medium with fewest components, `add_loopless`)**: when every 0/1 assignment of the binary variables of
+a builder's minimisation problem leads to a leaf problem that is certified infeasible or certified optimal with a value of at least `L`
+(`Prob.certLeavesMin`, checked by the driver), no feasible point of the mixed-integer problem has an objective value below `L` -/
+theorem certified_enumeration_bounds_the_minimum (p : Prob) (certs : List LeafCert) (L : Rat) (h : p.certLeavesMin certs L = true)
+    (x : V → Rat) (hx : p.Feasible x) : L ≤ p.value x := certLeavesMin_bound p certs L h x hx
+
+open AuxM in
+/-- … and the point a leaf certificate names is a feasible point of the mixed-integer problem, so the best leaf attains the bound -/
+theorem certified_leaf_point_is_feasible (p : Prob) (a : List (V × Rat)) (ha : a ∈ allAssign p.binVars)
+    (hbox : ∀ w ∈ p.vars, w.kind = .bin → w.lb = .fin 0 ∧ w.ub = .fin 1) (hni : ∀ w ∈ p.vars, w.kind ≠ .int)
+    (x : V → Rat) (hx : (p.fix a).Feasible x) : p.Feasible x := leaf_point_feasible p a ha hbox hni x hx
+
 end C04
